@@ -1019,6 +1019,11 @@ func (g *gen) rollout(i int, seed uint64, fair bool) *scenario {
 		sc.Hook.OmitStatus = true
 	case 1:
 		sc.Hook.Status = J{"conditions": A{J{"type": "Updated", "status": "Unknown"}, J{"type": "Ready", "status": "True"}}}
+		if r.Bool() {
+			// conditions of the hook's own, none of them the rollout's: `Updated` is added to the list
+			sc.Hook.Status = J{"conditions": A{J{"type": "Ready", "status": "True"}, J{"type": "Scaled", "status": "False", "reason": "Busy"}}}
+			sc.Features = append(sc.Features, "hook-conditions-without-updated")
+		}
 	case 2:
 		// a hook that passes the parent's current conditions through (the rollout condition of the last sync included)
 		sc.Hook.EchoParentConditions = true
